@@ -374,11 +374,17 @@ class Engine:
 
     # ------------------------------------------------------------------ obligations
     def obl(self, kind, anchor, desc=''):
-        oid = '%s/%s/%s/%s' % (self.prop.id, self.cur.target, kind, anchor)
+        oid = '%s/%s/%s/%s' % (self.prop.id, self.cur_key(), kind, anchor)
         if oid not in self.obls:
             self.obls[oid] = Obligation(oid, kind, desc)
             self.order.append(oid)
         return self.obls[oid]
+
+    def cur_key(self):
+        c = self.cur
+        if c.name == c.qualname or c.kind == 'lemma':
+            return c.target
+        return '%s[%s]' % (c.target, c.name)
 
     def site(self, kind):
         k = (self.cur.name, kind)
@@ -393,4 +399,5 @@ class Engine:
         self._init_keys = {}
         ex = Exec(self, c)
         ex.run()
-        return [self.obls[o] for o in self.order if ('/' + c.target + '/') in o]
+        pre = '%s/%s/' % (self.prop.id, self.cur_key())
+        return [self.obls[o] for o in self.order if o.startswith(pre)]
